@@ -43,6 +43,9 @@ func TestDevRun(t *testing.T) {
 	if os.Getenv("X_DEV") == "C06" {
 		c = C06{}
 	}
+	if os.Getenv("X_DEV") == "C08" {
+		c = C08X{}
+	}
 	n := 0
 	st := time.Now()
 	viol := map[string]int{}
